@@ -396,6 +396,27 @@ func runRestart(c *Case, r *mon.Rec, rng *rand.Rand) {
 	} else if !bytes.Equal(replyA, wantA) {
 		r.Violate(c, "inflight-reply-lost", a, fmt.Sprintf("restart: reply written (%d bytes) but the client received % x, want % x", written, replyA, wantA))
 	}
+	// Shutdown once more on the stopped server, and on a Server value that never served: neither crashes nor blocks
+	for i, sv := range []*server.Server{s, {OnErrorFunc: func(error) {}}} {
+		done := make(chan string, 1)
+		go func() {
+			_, txt := mon.Catch(func() {
+				sctx, sc := context.WithTimeout(context.Background(), time.Second)
+				defer sc()
+				_ = sv.Shutdown(sctx)
+			})
+			done <- txt
+		}()
+		r.Eval(1)
+		select {
+		case txt := <-done:
+			if txt != "" {
+				r.Violate(c, "shutdown-panics", mon.Attrs{"which": []string{"second-shutdown", "never-served"}[i]}, txt)
+			}
+		case <-time.After(4 * time.Second):
+			r.Violate(c, "shutdown-does-not-return", mon.Attrs{"which": []string{"second-shutdown", "never-served"}[i]}, "Shutdown with a 1 s context had not returned after 4 s")
+		}
+	}
 }
 
 func b2u(b bool) uint64 {
